@@ -192,6 +192,11 @@ def check_rigid(r) -> list[Fail]:
             idx = sorted({i % n for i in r["idx"]})
             sub = m.substructure(idx)
             pe = r.get("parent_edit", 0)
+            if pe and r["rseed"] % 2:
+                # the view is USED once (read, and written back unchanged) before the parent changes
+                c_ = np.array(sub.coords)
+                sub.coords = c_
+                _ = sub.parent_atom_indices
             rest0 = [i for i in range(n) if i not in idx]
             if pe == 1 and rest0:
                 # the parent loses an unselected atom after the substructure was taken: the selection is the same atoms
